@@ -113,6 +113,17 @@ def tree(rng, depth, size=32):
             src = rng.choice(REG_RECIPES + FRESH)
             st = rng.choice([0, 8])
             c1, c2 = ['S', src, st, st + 8], ['S', src, st, st + 16]
+            flavour = rng.random()
+            if flavour < 0.3:
+                # ... or only in the size of a memory read at one address
+                addr = src if rng.random() < 0.5 else ['O', '+', [src, r_int(rng.choice([4, 8]))]]
+                w1, w2 = rng.sample([8, 16, 32], 2)
+                c1, c2 = ['M', addr, w1, None, False], ['M', addr, w2, None, False]
+            elif flavour < 0.6:
+                # ... or only in the width of the last, constant slot of a compose (movzx to 16 / to 32 bits)
+                lo = ['S', src, st, st + 8]
+                c1 = ['C', [[lo, 0, 8], [r_int(0, 8), 8, 16]]]
+                c2 = ['C', [[lo, 0, 8], [['I', 'uint32', 0], 8, 32]]]
             s1, s2 = rng.choice(REG_RECIPES), rng.choice(REG_RECIPES)
             args += rng.choice([[['?', c1, s1, s2], ['?', c2, s1, s2]], [['?', c2, s1, s2], ['?', c1, s1, s2]]])
         elif y < 0.50 and op == '+':
@@ -177,6 +188,11 @@ def tree(rng, depth, size=32):
         return compose(rng, depth)
     if k < 0.73:
         cut = rng.choice([8, 16])
+        if rng.random() < 0.15:
+            # two runs of adjacent slices of one source, kept apart by a foreign nibble
+            src, other = rng.sample(REG_RECIPES + FRESH, 2)
+            return ['C', [[['S', src, 0, 8], 0, 8], [['S', src, 8, 12], 8, 12], [['S', other, 12, 16], 12, 16],
+                          [['S', src, 16, 24], 16, 24], [['S', src, 24, 32], 24, 32]]]
         if rng.random() < 0.4:
             src = rng.choice(REG_RECIPES + FRESH)    # slices of the same source: merge rule
             return ['C', [[['S', src, 0, cut], 0, cut], [['S', src, cut, 32], cut, 32]]]
@@ -306,7 +322,11 @@ def symline(rng):
         return 'lea ecx, [%s+edx+4]' % expr
     if k < 0.9:
         return 'push %s+8' % expr
-    return 'mov DWORD PTR %s[ebx], eax' % expr
+    if rng.random() < 0.5:
+        return 'mov DWORD PTR %s[ebx], eax' % expr
+    if rng.random() < 0.5:
+        return 'mov eax, DWORD PTR %s[ebx+%s]' % (syms[0], syms[1])
+    return 'lea esi, %s+%s[0+edi*8]' % (syms[0], syms[1])
 
 def twin_items(rng):
     """The same small shape at two widths, one after the other (anything keyed on values alone collides)."""
